@@ -242,7 +242,8 @@ class Deps:
                         return out
                     out.add(fld)
                     return out
-                return self.of(n.value, depth + 1, seen)
+                # an attribute of something else (`p.__class__`, `obj.seq`): a projection of whatever that is
+                return out | {_project(d, "cls" if n.attr == "__class__" else "attr") if d.startswith(("param:", "proj:")) else d for d in self.of(n.value, depth + 1, seen)}
             if isinstance(n, ast.Call):
                 fn = n.func
                 lossy = False
@@ -282,14 +283,22 @@ class Deps:
                 if kind:
                     inner = {_project(d, kind) for d in inner}
                 return out | inner
+            if isinstance(n, ast.BinOp) and isinstance(n.op, (ast.FloorDiv, ast.Mod)) and not (isinstance(n.left, ast.Constant) and isinstance(n.left.value, str)):
+                inner = self.of(n.left, depth + 1, seen) | self.of(n.right, depth + 1, seen)
+                return out | {_project(d, "num") if d.startswith(("param:", "proj:")) else d for d in inner}
             for c in ast.iter_child_nodes(n):
                 out |= self.of(c, depth + 1, seen)
         return out
 
 
 PROJ_FUNCS = {"sorted": "sorted", "tuple": "iter", "list": "iter", "iter": "iter", "set": "set", "frozenset": "set", "len": "agg", "sum": "agg", "min": "agg",
-              "max": "agg", "any": "agg", "all": "agg", "bool": "agg", "hash": "agg", "id": "agg", "type": "agg"}
-PROJ_METHODS = {"keys": "keys", "values": "values", "items": "items", "count": "agg", "index": "agg", "startswith": "agg", "endswith": "agg", "get": "agg"}
+              "max": "agg", "any": "agg", "all": "agg", "bool": "agg", "hash": "agg", "id": "agg", "type": "cls",
+              # numeric coarsenings: many arguments share one image, and nothing downstream is told which one it was
+              "round": "num", "abs": "num", "divmod": "num",
+              # conversions (possibly coarsening - int(2.7) - but usually what the callee does first anyway): not judged
+              "int": "conv", "float": "conv", "str": "conv", "repr": "conv"}
+PROJ_METHODS = {"keys": "keys", "values": "values", "items": "items", "count": "agg", "index": "agg", "startswith": "agg", "endswith": "agg", "get": "agg",
+                "floor": "num", "ceil": "num", "trunc": "num", "around": "num", "round": "num", "lower": "conv", "upper": "conv", "strip": "conv"}
 
 
 def _project(d, kind):
@@ -629,6 +638,12 @@ def analyse(prog, E):
                 missing.append(p)
                 why.append("the key holds only the keys of the dict parameter '%s' (%s); the values stored under them are read by the cached computation"
                            % (name, ", ".join(sorted(chains))))
+                continue
+            if any("num" in c.split(">") for c in chains) and all(("num" in c.split(">")) or ("cls" in c.split(">")) for c in chains) and p in valdeps:
+                # the key holds a numeric coarsening of the argument (round, abs, //, %, floor) while the cached computation reads the argument
+                # itself: every argument with the same image is answered with the value computed for the first of them
+                missing.append(p)
+                why.append("the key holds only a coarsened image of '%s' (%s) while the stored value is computed from '%s' itself" % (name, ", ".join(sorted(chains)), name))
                 continue
             lossy_params.append("param:%s via %s" % (name, ", ".join(sorted(chains))))
         # fields read by the cached computation
